@@ -13,6 +13,7 @@ IMPORTS = {
     "template": ('"text/template"', "template.New"),
     "htemplate": ('htemplate "html/template"', "htemplate.New"),
     "context": ('"context"', "context.Background"),
+    "io": ('"io"', "io.EOF"),
 }
 
 
@@ -23,7 +24,7 @@ def gen_type(rnd, depth, comparable=False):
         return rnd.choice(["int", "string", "Local2", "netip.Addr", "time.Duration", "*Local1", "[2]int"])
     if depth <= 0:
         return rnd.choice(leaf + ["template.Template", "htemplate.Template", "error", "interface{}"])
-    k = rnd.choice(["leaf", "ptr", "slice", "array", "map", "chan", "func", "struct", "iface", "ptr", "slice", "map"])
+    k = rnd.choice(["leaf", "ptr", "slice", "array", "map", "chan", "func", "struct", "iface", "ptr", "slice", "map", "generic"])
     if k == "leaf":
         return gen_type(rnd, 0)
     if k == "ptr":
@@ -37,12 +38,24 @@ def gen_type(rnd, depth, comparable=False):
     if k == "chan":
         return rnd.choice(["chan ", "<-chan ", "chan<- "]) + gen_type(rnd, depth - 1)
     if k == "func":
-        ps = ", ".join(gen_type(rnd, depth - 1) for _ in range(rnd.randint(0, 2)))
+        pl = [gen_type(rnd, depth - 1) for _ in range(rnd.randint(0, 2))]
+        if pl and rnd.random() < 0.3:
+            pl[-1] = "..." + pl[-1]                 # variadic
+        ps = ", ".join(pl)
         rs = [gen_type(rnd, depth - 1) for _ in range(rnd.randint(0, 2))]
         r = "" if not rs else (" " + rs[0] if len(rs) == 1 and not rs[0].startswith("func") else " (" + ", ".join(rs) + ")")
         return "func(%s)%s" % (ps, r)
     if k == "struct":
+        r = rnd.random()
+        if r < 0.2:
+            return "struct{ %s; A %s }" % (rnd.choice(["Local1", "*Local1", "io.Reader", "Box[int]"]), gen_type(rnd, depth - 1))     # embedded field
+        if r < 0.4:
+            return "struct{ A %s `json:\"a\"`; B %s }" % (gen_type(rnd, depth - 1), gen_type(rnd, 0))                           # field tag
         return "struct{ A %s; B %s }" % (gen_type(rnd, depth - 1), gen_type(rnd, 0))
+    if k == "generic":
+        if rnd.random() < 0.5:
+            return "Box[%s]" % gen_type(rnd, depth - 1)
+        return "Pair[%s, %s]" % (gen_type(rnd, 0, comparable=True), gen_type(rnd, depth - 1))
     return "interface{ M(%s) %s }" % (gen_type(rnd, 0), gen_type(rnd, 0))
 
 
@@ -64,7 +77,7 @@ def type_package(rnd, idx):
         t = gen_type(rnd, rnd.choice([1, 2, 2, 3]))
         if t not in types and t not in ("context.Context",):
             types.append(t)
-    body = "type Local1 struct{ X int }\ntype Local2 string\ntype R%d struct{ N int }\n" % idx
+    body = "type Local1 struct{ X int }\ntype Local2 string\ntype Box[T any] struct{ V T }\ntype Pair[K comparable, V any] struct {\n\tK K\n\tV V\n}\ntype R%d struct{ N int }\n" % idx
     provs = []
     for i, t in enumerate(types[:nv]):
         body += "func NewV%d_%d() (v %s) { return }\n" % (idx, i, t)
@@ -268,15 +281,6 @@ func NewDep() *Dep { return &Dep{} }
 func NewOut(e *Eg, d *Dep) *Out { return &Out{} }
 var _ = kessoku.Inject[*Out]("InitOut", kessoku.Async(kessoku.Provide(NewEg)), kessoku.Async(kessoku.Provide(NewDep)), kessoku.Provide(NewOut))
 ''', r"(no new variables|eg\.Go undefined|eg\.Wait undefined|cannot use .*errgroup|declared and not used|assignment mismatch)"),
-    "KF-C04-5": ('''type Box[T any] struct{ V T }
-type Out struct{ N int }
-func NewOut(b Box[int]) *Out { return &Out{N: b.V} }
-var _ = kessoku.Inject[*Out]("InitOut", kessoku.Provide(NewOut))
-''', r"cannot use generic type Box\[T any\] without instantiation"),
-    "KF-C04-6": ('''type Out struct{ N int }
-func NewOut(f func(...int) string) *Out { return &Out{N: len(f(1, 2))} }
-var _ = kessoku.Inject[*Out]("InitOut", kessoku.Provide(NewOut))
-''', r"cannot use .* \(variable of type func\((arg0 )?\[\]int\) .*string\)?\) as func\(\.\.\.int\) string value"),
     "KF-C04-7": ('''type A struct{ N int }
 type B struct{ N int }
 type C struct{ N int }
@@ -288,6 +292,21 @@ func NewD(a *A, b *B) *D { return &D{} }
 var _ = kessoku.Inject[*C]("InitC", kessoku.Async(kessoku.Provide(NewA)), kessoku.Async(kessoku.Provide(NewB)), kessoku.Provide(NewC))
 var _ = kessoku.Inject[*D]("InitD", kessoku.Async(kessoku.Provide(NewA)), kessoku.Async(kessoku.Provide(NewB)), kessoku.Provide(NewD))
 ''', r"declared and not used: ctx"),
+}
+
+# reproducers of repaired defects (fixed: entries of known_findings.json): they must compile now, and a regression is a violation
+REPAIRED = {
+    "generic_instance": 'type Box[T any] struct{ V T }\ntype Out struct{ N int }\nfunc NewOut(b Box[int]) *Out { return &Out{N: b.V} }\nvar _ = kessoku.Inject[*Out]("InitOut", kessoku.Provide(NewOut))\n',
+    "variadic_func": 'type Out struct{ N int }\nfunc NewOut(f func(...int) string) *Out { return &Out{N: len(f(1, 2))} }\nvar _ = kessoku.Inject[*Out]("InitOut", kessoku.Provide(NewOut))\n',
+    "embedded_field": '''type Out struct{ N int }
+type L struct{ X int }
+func NewOut(s struct{ io.Reader; *L; A int }) *Out { return &Out{} }
+var _ = kessoku.Inject[*Out]("InitOut", kessoku.Provide(NewOut))
+''',
+    "struct_tag": '''type Out struct{ N int }
+func NewOut(s struct{ A int `json:"a"`; B string `k:"v" x:"y"` }) *Out { return &Out{} }
+var _ = kessoku.Inject[*Out]("InitOut", kessoku.Provide(NewOut))
+''',
 }
 
 
@@ -337,6 +356,8 @@ def _stage(seed, tier, key="N-x"):
     for i in range(nt):
         body, types = type_package(rnd, i)
         pkgs.append(("ty%d" % i, {"k.go": wrap(body)}, ["k.go"], None, dict(kind="types", types=types)))
+    for nm, body in REPAIRED.items():
+        pkgs.append(("fx_" + nm, {"k.go": wrap(body)}, ["k.go"], None, dict(kind="reproducer of a repaired type-spelling defect")))
     for o in (0, 1):
         files, targets, meta = multi_pkg(o)
         pkgs.append(("mp%d" % o, files, targets, None, meta))
